@@ -641,6 +641,26 @@ func (x *Exec) closeChan(cfg *Config, ch Term, pos token.Pos) {
 	x.oblige(cfg, "close-of-closed-channel", x.lockName(ch), Not(Select(closed, ch)), nil, pos)
 	cfg.st.heap["$closed"] = Store(closed, ch, True)
 	cfg.closedNow = true
+	// option closes-after <channel variable> <function variable>: the channel
+	// is closed only after the function has been called in this invocation
+	if x.c != nil && x.c.Options["closes-after"] != "" && len(cfg.frames) > 0 {
+		for _, part := range strings.Split(x.c.Options["closes-after"], ";") {
+			fs := strings.Fields(part)
+			if len(fs) != 2 {
+				continue
+			}
+			env := x.entryEnv(cfg)
+			env.frame = cfg.frames[0]
+			env.old = cfg.old
+			che, err1 := ParseExpr(fs[0])
+			fe, err2 := ParseExpr("calls(" + fs[1] + ") > old(calls(" + fs[1] + "))")
+			if err1 != nil || err2 != nil {
+				unsupported("option closes-after: bad expression")
+			}
+			isThis := Eq(x.specTerm(env, che), ch)
+			x.oblige(cfg, "close-order", fs[0]+" closed after "+fs[1]+" was called", Implies(isThis, x.specBool(env, fe)), nil, pos)
+		}
+	}
 }
 
 // ---------------------------------------------------------------------------
